@@ -287,6 +287,12 @@ def end_to_end(case):
                 if app else "environ[%r] = %r\n" % (k, v)
                 for k, v, app in case['toolchain']))
             args += ['--toolchain', tc]
+        if case.get('tcraw'):
+            tc = os.path.join(root, 'tc.bfg')
+            with open(tc, 'a') as f_:
+                f_.write(case['tcraw'])
+            if '--toolchain' not in args:
+                args += ['--toolchain', tc]
         args += case['args']
         # the compilers are named either by their paths, or the C compiler by
         # a bare command name that only the configure-time PATH resolves
@@ -321,8 +327,12 @@ def end_to_end(case):
             return o
 
         def saved_vars():
+            # (the variables, and the platforms the configuration was made
+            # for and on)
             d = json.load(open(os.path.join(bld, '.bfg_environ')))
-            return d['data']['variables']
+            return dict(d['data']['variables'],
+                        _platforms=[d['data'].get('host_platform'),
+                                    d['data'].get('target_platform')])
         base = snapshot()
         v0 = saved_vars()
         rc0, envout0 = run(['/venv/bin/bfg9000', 'env', bld], cwd=root,
@@ -335,20 +345,24 @@ def end_to_end(case):
                 e1['PATH'] = os.path.join(root, 'emptybin')
             cwd = {'src': src, 'build': bld, 'root': root}[step['cwd']]
             bdarg = bld if step['abs'] else os.path.relpath(bld, cwd)
+            # the later invocation runs under another machine personality
+            # (a 32-bit shell on the same host)
+            pre = ['/usr/bin/setarch', 'i686'] if step.get('arch') and \
+                os.path.exists('/usr/bin/setarch') else []
             if step['cmd'] == 'regenerate':
-                rc, out = run(['/venv/bin/bfg9000', 'regenerate', bdarg],
+                rc, out = run(pre + ['/venv/bin/bfg9000', 'regenerate', bdarg],
                               cwd=cwd, env=e1)
                 obs = {'outputs_equal': snapshot() == base,
                        'vars_equal': saved_vars() == v0}
             elif step['cmd'] == 'lazy':
                 os.utime(os.path.join(src, 'build.bfg'))
-                rc, out = run(['/venv/bin/bfg9000', 'regenerate', '--lazy',
-                               bdarg], cwd=cwd, env=e1)
+                rc, out = run(pre + ['/venv/bin/bfg9000', 'regenerate',
+                                     '--lazy', bdarg], cwd=cwd, env=e1)
                 obs = {'outputs_equal': snapshot() == base,
                        'vars_equal': saved_vars() == v0}
             elif step['cmd'] == 'env':
-                rc, out = run(['/venv/bin/bfg9000', 'env', bdarg], cwd=cwd,
-                              env=e1)
+                rc, out = run(pre + ['/venv/bin/bfg9000', 'env', bdarg],
+                              cwd=cwd, env=e1)
                 obs = {'outputs_equal': out == envout0, 'vars_equal': True}
             else:
                 rc, out = run(['/venv/bin/bfg9000', 'run', '-B', bdarg, '--',
@@ -396,8 +410,11 @@ def e2e_cases(ck, n):
             later.append({'cmd': rnd.choice(['regenerate', 'lazy', 'env',
                                              'run']),
                           'cwd': rnd.choice(['src', 'build', 'root']),
-                          'abs': rnd.random() < 0.5, 'e1': e1})
+                          'abs': rnd.random() < 0.5, 'e1': e1,
+                          'arch': rnd.random() < 0.4})
         cases.append({'toolchain': tc, 'e0': e0, 'later': later,
+                      'tcraw': "target_platform('linux', 'i686')\n"
+                      if i % 3 == 0 else '',
                       'relcc': i % 2 == 0,
                       'args': rnd.choice([[], ['--prefix', '/opt/my app'],
                                           ['--disable-shared',
